@@ -7,6 +7,7 @@ import (
 	"go/types"
 	"os"
 	"path/filepath"
+	"regexp"
 	"runtime/debug"
 	"sort"
 	"strings"
@@ -19,29 +20,31 @@ import (
 )
 
 type Engine struct {
-	repo     string
-	genRoot  string // scratch module with generated corpus packages
-	prog     *ssa.Program
-	pkgs     []*ssa.Package
-	db       *DB
-	u        *Universe
-	fnByID   map[int]*ssa.Function
-	closures map[string]*closureInfo
-	loops    map[*ssa.Function]map[*ssa.BasicBlock]*loopInfo
-	notes    map[string]bool
-	inlines  map[string]map[string]bool
-	boxes    map[string]int
-	allSafety bool
-	scopePkgs map[string]bool
-	funcs    map[string][]*ssa.Function // contract key -> functions (several for generated corpus)
-	mu       sync.Mutex
-	tmp      string
-	timeout  int
+	repo       string
+	genRoot    string // scratch module with generated corpus packages
+	prog       *ssa.Program
+	pkgs       []*ssa.Package
+	db         *DB
+	u          *Universe
+	fnByID     map[int]*ssa.Function
+	closures   map[string]*closureInfo
+	loops      map[*ssa.Function]map[*ssa.BasicBlock]*loopInfo
+	notes      map[string]bool
+	inlines    map[string]map[string]bool
+	boxes      map[string]int
+	allSafety  bool
+	scopePkgs  map[string]bool
+	funcs      map[string][]*ssa.Function // contract key -> functions (several for generated corpus)
+	mu         sync.Mutex
+	tmp        string
+	timeout    int
 	allSolvers bool
-	workers  int
-	typeNames map[string]types.Type
-	skipped   []string
+	workers    int
+	typeNames  map[string]types.Type
+	skipped    []string
 }
+
+var posRe = regexp.MustCompile(` @ \d+:\d+`)
 
 // canonicalSSA prints the SSA of a generated function with the package path
 // and the record type name abstracted, so copies emitted for different
@@ -62,7 +65,8 @@ func (e *Engine) canonicalSSA(fn *ssa.Function) string {
 		s = strings.ReplaceAll(s, " "+n+" ", " REC ")
 		s = strings.ReplaceAll(s, "*"+n, "*REC")
 	}
-	// drop the Location comment line (file positions differ)
+	// drop the Location comment line and debug positions (file positions differ)
+	s = posRe.ReplaceAllString(s, "")
 	var out []string
 	for _, l := range strings.Split(s, "\n") {
 		if strings.HasPrefix(l, "# Location:") {
@@ -263,15 +267,15 @@ func (e *Engine) load(patterns []string, dir string) error {
 }
 
 type FuncResult struct {
-	Reached []string
-	Key    string
-	Fn     string
-	Obls   []*Obligation
-	Err    string // unsupported / spec error
-	Paths  int
-	Trusted []string
+	Reached     []string
+	Key         string
+	Fn          string
+	Obls        []*Obligation
+	Err         string // unsupported / spec error
+	Paths       int
+	Trusted     []string
 	Assumptions []string
-	Secs   float64
+	Secs        float64
 }
 
 // verifyFunction runs the symbolic executor on fn under contract fc.
@@ -468,6 +472,7 @@ func buildSMT(prelude, decls string, o *Obligation) string {
 (declare-fun bit_xor (Int Int) Int)
 (declare-fun bit_andnot (Int Int) Int)
 (declare-fun fn_of (Int) Int)
+(declare-fun cnt_lt ((Array Int Int) Int Int Int) Int)
 `)
 	b.WriteString(decls)
 	b.WriteString("\n")
@@ -492,7 +497,7 @@ func (e *Engine) discharge(obls []*Obligation) {
 		if o.Expect == "unsat" && o.Res.Status != "unsat" && o.Res.Status != "sat" {
 			// model search: retry with model-based quantifier instantiation
 			smt := strings.Replace(o.SMT, "(set-option :smt.mbqi false)\n(set-option :auto_config false)\n", "", 1)
-			r, all := raceSolvers(e.tmp, name+"_mbqi", smt, e.timeout, false, []string{"z3-new", "z3"})
+			r, all := raceSolvers(e.tmp, name+"_mbqi", smt, 4, false, []string{"z3-new"})
 			o.All = append(o.All, all...)
 			if r.Status == "sat" || r.Status == "unsat" {
 				o.Res = r
@@ -520,9 +525,9 @@ func newEngine(repo string) *Engine {
 // loadContracts reads the contract files of the repository and /verif/contracts.
 func (e *Engine) loadContracts(verifDir string) error {
 	files := map[string]string{
-		filepath.Join(e.repo, "internal/bitpack/contracts_verif.go"): "github.com/parsyl/parquet/internal/bitpack",
-		filepath.Join(e.repo, "internal/rle/contracts_verif.go"):     "github.com/parsyl/parquet/internal/rle",
-		filepath.Join(e.repo, "contracts_verif.go"):                  "github.com/parsyl/parquet",
+		filepath.Join(e.repo, "internal/bitpack/contracts_verif.go"):   "github.com/parsyl/parquet/internal/bitpack",
+		filepath.Join(e.repo, "internal/rle/contracts_verif.go"):       "github.com/parsyl/parquet/internal/rle",
+		filepath.Join(e.repo, "contracts_verif.go"):                    "github.com/parsyl/parquet",
 		filepath.Join(e.repo, "cmd/parquetgen/gen/contracts_verif.go"): "GEN",
 	}
 	var names []string
